@@ -215,6 +215,18 @@ def o_handler(rec: Recorder, case, soft=False):
                 if documented and a is not expect and (p is secret or wrong_differs):
                     rec.fail(f"C07/variant-verify/{name}/{label}", f"{name}: documented re-encoding ({label}) verifies {a} for the {'right' if expect else 'wrong'} password", "handler_roundtrip", case, [v, a], expect, soft=soft)
                     return
+    # the same hash as written by an independent implementation of the format (letter case, padding, field order of the specification)
+    # is a well-formed hash string: it parses and renders back to itself
+    if has_fs and not case.get("ref_made") and not f.plaintext and not f.disabled:
+        try:
+            ref_text = RF.ref_hash(name, secret, _ns, ctx)
+        except (UnicodeError, ValueError, KeyError):
+            ref_text = None
+        if ref_text is not None and h.identify(ref_text):
+            st, back = call(lambda: h.from_string(ref_text, **_fs_ctx(h, pctx)).to_string())
+            if st == "err" or back != ref_text:
+                rec.fail(f"C07/reference-string-render/{name}", f"{name}: a hash string written by an independent implementation of the format does not render back to itself", "handler_roundtrip", case, repr(back)[:160], ref_text[:160], soft=soft)
+                return
     # genhash(secret, <hash>) -- the documented (deprecated) two-step API -- reproduces the hash for the right password
     if hasattr(h, "genhash") and not f.disabled and not f.plaintext:
         st, gh = call(h.genhash, secret, hs, **pctx)
